@@ -475,6 +475,9 @@ func SetConfig(id, key, val []byte) {
 		if len(key) == 0 {
 			panic("this method must be invoked by alphabet")
 		}
+		if len(nodeKey) == 0 {
+			panic("this method must be invoked by alphabet")
+		}
 	} else {
 		common.CheckAlphabetWitness()
 	}
